@@ -60,3 +60,26 @@ let run_c03 toks obs =
            | [] -> Printf.sprintf "AGREE %s %s" id (nt k)
            | t :: _ -> Printf.sprintf "MISMATCH %s harness wait timed out: %s" id t)
     end)
+
+let run_c09 toks obs =
+  with_trace toks obs (fun id k evs tr ->
+    if not (c09_only_own tr) then Printf.sprintf "PROPFAIL %s sig=%s a handler's context was cancelled although its caller did not cancel it and the transport was not closing" id
+        (if kv "family" k = "" then "foreign-cancel" else "foreign-cancel:" ^ kv "family" k)
+    else if not (c09_close_cancels_all tr) then Printf.sprintf "PROPFAIL %s sig=%s the transport stopped but a handler still running did not have its context cancelled" id
+        (if kv "family" k = "" then "not-cancelled-on-close" else "not-cancelled-on-close:" ^ kv "family" k)
+    else match Abstract.timeouts evs with
+      | [] -> Printf.sprintf "AGREE %s %s" id (nt k)
+      | t :: _ -> Printf.sprintf "MISMATCH %s harness wait timed out: %s" id t)
+
+let run_c11 toks obs =
+  with_trace toks obs (fun id k evs tr ->
+    let calls = List.filter_map (fun e -> match String.split_on_char '/' e with
+      | [ "callstart"; c ] when String.length c > 0 && c.[0] = 'c' -> Some (Abstract.id_num c) | _ -> None) evs in
+    if not (c11_pred calls tr) then begin
+      let dump = List.filter (fun e -> String.length e >= 5 && String.sub e 0 5 = "dump/") evs in
+      Printf.sprintf "PROPFAIL %s sig=%s at quiescence a goroutine of the library survives a stopped transport whose handlers and calls have all returned, or the pending-call table holds a call that is not outstanding; %s" id
+        (if kv "family" k = "" then "leak" else "leak:" ^ kv "family" k) (String.concat " " dump)
+    end
+    else match Abstract.timeouts evs with
+      | [] -> Printf.sprintf "AGREE %s %s" id (nt k)
+      | t :: _ -> Printf.sprintf "MISMATCH %s harness wait timed out: %s" id t)
